@@ -80,7 +80,7 @@ _BASE_FRAGMENTS = [
     "-", "+", " ", "\n", "\r", "\r\n", "raw", "endraw", "if", "x", "'", '"', "(", ")", "[", "]", "|", ".", "1",
     "for", "in", "endfor", "set", "=", "block", "endblock", "macro", "endmacro", "call", "filter", "{", "}", ",",
     ":", "~", "*", "is", "not", "else", "elif", "endif", "with", "include", "import", "from", "extends",
-    "autoescape", "trans", "loop", "super", "1.", "0x", "_", "é", "\\", "\u0d70",
+    "autoescape", "trans", "loop", "super", "1.", "0x", "_", "é", "\\", "\u0d70", "'\\n'",
 ]
 
 
@@ -399,6 +399,7 @@ TESTS = [
     "gt", "ge", "lt", "le", "greaterthan", "lessthan", "sameas", "in", "filter", "test",
 ]
 STRINGS = [
+    '"a\\nb\\nc"', "'\\r\\n\\r\\n'", '"\\n\\n\\n"', "'\\x0a\\u000a'",
     '"a"', "'b'", '""', "''", '"a b"', "'it\\'s'", '"q\\"q"', '"\\n"', "'\\x41'", '"\\u00e9"', '"\\N{BULLET}"', '"é"',
     "'{{'", '"%}"', "'#}'", '"\\\\"', "'a\\tb'", '"layout.html"', "'%s-%s'", '"%(a)s"', '"<b>"', "'\\q'", '"x\\\ny"',
     '"}"', "'${'", '"-->"', "'\\x'", '"\\N{nope}"', "'\\u12'", '"\\U99999999"', "'\\'", "'a\\",
@@ -510,6 +511,13 @@ class _Gen:
             return neg + name + " " + self.atom()
         return neg + "%s(%s)" % (name, self.args(depth))
 
+    def slice(self, depth):
+        return "%s:%s%s" % (
+            self.expr(depth + 1) if self.p(1, 2) else "",
+            self.expr(depth + 1) if self.p(1, 2) else "",
+            (":" + (self.expr(depth + 1) if self.p(1, 2) else "")) if self.p(1, 3) else "",
+        )
+
     def postfixed(self, depth):
         s = self.atom()
         for _ in range(self.c(4)):  # attribute / subscript / call
@@ -521,11 +529,13 @@ class _Gen:
             elif k == 3:
                 s += "[%s]" % self.expr(depth + 1)
             elif k == 4:
-                s += "[%s:%s%s]" % (
-                    self.expr(depth + 1) if self.p(1, 2) else "",
-                    self.expr(depth + 1) if self.p(1, 2) else "",
-                    (":" + (self.expr(depth + 1) if self.p(1, 2) else "")) if self.p(1, 3) else "",
-                )
+                parts = [self.slice(depth)]
+                if self.p(1, 3):  # tuple subscript mixing slices and plain indices: x[a:b, c], x[::2, 1:]
+                    for _ in range(1 + self.c(2)):
+                        parts.append(self.slice(depth) if self.p(1, 2) else self.expr(depth + 1))
+                    if self.p(1, 2):
+                        parts.reverse()
+                s += "[%s%s]" % (", ".join(parts), "," if self.p(1, 12) else "")
             else:
                 s += "(%s)" % self.args(depth)
         for _ in range(self.c(3)):
@@ -751,7 +761,7 @@ class _Gen:
             self.body(depth + 1, out)
             return self.tag("endwith", out)
         if k == 27:
-            self.tag("autoescape " + self.pick(["true", "false", "x", "none", "1"]), out)
+            self.tag("autoescape " + (self.pick(["true", "false", "x", "none", "1"]) if self.p(2, 3) else self.expr(1)), out)
             self.body(depth + 1, out)
             return self.tag("endautoescape", out)
         if k == 28:
@@ -815,7 +825,10 @@ def build_template(data, env):
             continue  # drop a whole top-level statement rather than cutting one in the middle
         parts.append(s)
         total += len(s)
-    return "".join(parts)
+    src = "".join(parts)
+    if g.p(1, 6):  # end of input in the middle of the template, at a token boundary
+        src = truncate(src, env, g.c(4), g.c(251))
+    return src
 
 
 def templates(env):
@@ -838,6 +851,25 @@ INJECT = _OTHER_DELIMS + [
     "0x", "1.", "1e", "0b1", "1_0", "09", "1__0", "0_", ".5", "1.e1", "0X1F", "1j", "\x00", " ", "\x85", "﻿", "é",
     "\x0b", "\x0c", "\t", "\\N{", "\\x", "\\u12", "\u0663", "\u0d70", "\u0300", "\u00b7", "'''", '"""', "@", "$", "`", "?", "^", "&", "<<", "**", "//", "->", ":=",
 ]
+
+
+def _is_string(tok):
+    return len(tok) >= 2 and tok[0] in "'\"" and tok[-1] == tok[0]
+
+
+def truncate(src, env, how, k):
+    """Cut ``src`` at a token boundary: how 0/1 = after the k-th token, 2/3 = directly after the k-th
+    string literal (keeping it), preferring literals that hold escape sequences."""
+    toks = tokenize_flat(src, env)
+    if not toks:
+        return src
+    if how >= 2:
+        idx = [t for t in range(len(toks)) if _is_string(toks[t])]
+        esc = [t for t in idx if "\\" in toks[t]]
+        idx = esc if esc and how == 3 else idx
+        if idx:
+            return "".join(toks[: idx[k % len(idx)] + 1])
+    return "".join(toks[: 1 + k % len(toks)])
 
 
 def mutate(src, other, ops, env):
@@ -916,10 +948,20 @@ def mutate(src, other, ops, env):
                 toks[i:i + 1] = [toks[i][:c], " ", toks[i][c:]]
             elif i + 1 < n and toks[i + 1].isspace():
                 del toks[i + 1]
+        elif kind == 15:  # end of input at a token boundary
+            del toks[1 + i:]
+        elif kind == 16:  # end of input directly after a string literal (escapes preferred)
+            toks = tokenize_flat(truncate("".join(toks), env, 2 + j % 2, k), env)
+        elif kind == 17:  # put a string literal with newline escapes somewhere
+            lit = ('"a\\nb\\nc"', "'\\r\\n\\r'", '"\\n"', "'\\n\\n\\n\\n'")[k % 4]
+            if j % 2:
+                toks[i] = lit
+            else:
+                toks.insert(i, lit)
     return "".join(toks)[:MAX_LEN]
 
 
-N_MUT_KINDS = 15
+N_MUT_KINDS = 18
 
 
 def mutated(env):
